@@ -1,3 +1,10 @@
+// decimal rendering of a natural number (what `{}` prints for usize; what parse::<usize> inverts)
+pub open spec fn dec_digit(d: nat) -> char { (('0' as u8) + (d as u8)) as char }
+pub open spec fn dec(n: nat) -> Seq<char>
+    decreases n
+{
+    if n < 10 { seq![dec_digit(n)] } else { dec(n / 10).push(dec_digit(n % 10)) }
+}
 // ---- trusted model of `Display` for the types that occur in content-relevant format! calls (D10) ----
 pub trait VDisp {
     spec fn disp(&self) -> Seq<char>;
